@@ -1,5 +1,48 @@
-import Cellml.Basic.Sexp
-/-! Channel C03 of the model driver (stub: not built yet). -/
+import Cellml.Units.Wire
+import Cellml.Units.Worklist
+
+/-! Channel C03: load one document's `<units>` elements through the work-list model.
+
+    `(C03 (id k) (defs d…) )` with `d` = `(base s name)` | `(def s name (elem…))` | `(def s name (elem…) :base_units "no")`
+    (the store index `s` of the shared wire format is ignored: a document has one store, whose id is `k`)
+    →  `(ok (name (scale…) (root…) (dims…)) …)` for every definition in request order
+     | `(err ValueError|UndefinedUnitError|BadDefinition …)` | `(unsupported "what")`.
+
+    `base_units`: the parser tests `units_element.get('base_units') == 'yes'`; the attribute text travels on the wire
+    so that `base_units="no"` is decided here, by the model. -/
 namespace C03
-def handle (_args : List Sexp) : Sexp := .atom "not-implemented"
+open Sexp Units Units.Wire
+
+/-- is the `<units>` element a base unit, given the text of its `base_units` attribute (if any) -/
+def isBaseAttr : Option String → Bool
+  | some "yes" => true      -- after `fix: treat base_units="no" as an ordinary units definition` (was: truthiness)
+  | _ => false
+
+def udef? : Sexp → Option UDef
+  | .list [.atom "base", _, n] => do
+      let name ← atomOf? n
+      some { name := name, base := isBaseAttr (some "yes"), elems := [] }
+  | .list (.atom "def" :: _ :: n :: es :: rest) => do
+      let name ← atomOf? n
+      let elems ← elems? es
+      let attr := (kw? rest "base_units").bind atomOf?
+      some { name := name, base := isBaseAttr attr, elems := elems }
+  | _ => none
+
+def report (reg : Registry) (st : Store) (d : UDef) : Sexp :=
+  let m := meaningOf reg st d.name
+  .list [.str d.name, ofScale m.1, ofContainer "root" m.2,
+         ofContainer "dims" (dimsOf reg (nameContainer (prefixName st.id d.name)))]
+
+def handle (args : List Sexp) : Sexp :=
+  match args with
+  | [.list [.atom "id", k], .list (.atom "defs" :: ds)] =>
+      match nat? k, ds.mapM udef? with
+      | some id, some defs =>
+          match addUnits id defs with
+          | .ok (reg, st) => .list (.atom "ok" :: defs.map (report reg st))
+          | .error e => addErrSexp e
+      | _, _ => .atom "bad-request"
+  | _ => .atom "bad-request"
+
 end C03
